@@ -286,6 +286,20 @@ def run(ctx):
         impl_vals = [None if x != x else Some(int(x)) for x in arr]
         impl_clim = (None if not plotted else Some(int(clim[0])), None if not plotted else Some(int(clim[1])))
         plans.append((case, ((want_cells, impl_vals), impl_clim)))
+        # the older spelling make_patch_collection (still offered) builds the same artist
+        if n % 3 == 0:
+            with warnings.catch_warnings():
+                warnings.simplefilter('ignore')
+                r_old = attempt(lambda: ems.make_patch_collection(arg))
+            ctx.count('make_patch_collection (older spelling)')
+            if r_old[0] != 'ok':
+                ctx.report('property', f'make_patch_collection failed: {r_old[1]}', dict(case, through='make_patch_collection'))
+            else:
+                arr_old = numpy.asarray(r_old[1].get_array(), dtype='f8')
+                if ([path_ring(p_) for p_ in r_old[1].get_paths()] != paths or not numpy.array_equal(arr_old, arr, equal_nan=True)
+                        or tuple(r_old[1].get_clim()) != tuple(clim)):
+                    ctx.report('property', 'make_patch_collection does not build the patches, values and colour limits that '
+                               'make_poly_collection builds', dict(case, through='make_patch_collection'))
         # user overrides: array= and clim= are passed through untouched
         with warnings.catch_warnings():
             warnings.simplefilter('ignore')
